@@ -1,6 +1,515 @@
-/- C16 — statements are being added as the proofs land (see DESIGN.md §6). -/
+/-
+  C16 — the decision table of `deterministic_choice`.
+  "The result is always an element of the population; giving weights or their running
+  totals is equivalent; giving no weights is equivalent to equal integer weights; a weight
+  list of the wrong length, a non-positive or non-finite total, or both kinds of weights
+  raise the documented errors; without an id it draws randomly by weight, never a
+  zero-weight item."
+  Statements only; helper lemmas live in `Pyab/Proofs/Choice.lean`, `Pyab/Proofs/Choice2.lean`.
+-/
+import Pyab.Model.Choice
+import Pyab.Spec.Interval
+import Pyab.Proofs.Choice2
+import Pyab.Properties.C03
 namespace Pyab.Properties
+open Pyab Pyab.Spec Pyab.Choice
 
-theorem C16_placeholder : True := trivial
+/-- integer weights given as Python ints -/
+def intWeights (w : List Nat) : List Num := w.map fun (x : Nat) => Num.i (x : Int)
+
+/-- the two ways of handing the same running totals `cum` to `deterministic_choice`:
+    `weights=ws` with `list(accumulate(ws)) = cum`, or `cum_weights=cum` -/
+inductive Passes (cum : List Num) : Option (List Num) → Option (List Num) → Prop
+  | weights (ws : List Num) (hacc : accumulate ws = .ok cum) : Passes cum (some ws) none
+  | cumWeights : Passes cum none (some cum)
+
+/-! ### (b) weights ≡ running totals -/
+
+/-- `weights=ws` behaves exactly like `cum_weights=list(accumulate(ws))` — results and errors -/
+theorem C16_weights_vs_cum (h n : Nat) (ws cum : List Num) (hacc : accumulate ws = .ok cum) :
+    choiceIdx (some h) n (some ws) none = choiceIdx (some h) n none (some cum) := by
+  rw [Proofs.choiceIdx_weights, hacc, Proofs.choiceIdx_cum]; rfl
+
+/-- the same on the random branch (`input_id is None`) -/
+theorem C16_weights_vs_cum_random (n : Nat) (ws cum : List Num) (hacc : accumulate ws = .ok cum) :
+    choiceIdx none n (some ws) none = choiceIdx none n none (some cum) := by
+  rw [Proofs.choiceIdx_none_weights, hacc, Proofs.choiceIdx_none_cum]; rfl
+
+/-- if summing the weights itself fails (an int too large for a float), that error surfaces -/
+theorem C16_weights_accumulate_error (h : Option Nat) (n : Nat) (ws : List Num) (e : Err)
+    (hacc : accumulate ws = .error e) : choiceIdx h n (some ws) none = .error e := by
+  cases h with
+  | none => rw [Proofs.choiceIdx_none_weights, hacc]; rfl
+  | some h => rw [Proofs.choiceIdx_weights, hacc]; rfl
+
+theorem passes_eq (h n : Nat) (cum : List Num) (wo co : Option (List Num)) (hp : Passes cum wo co) :
+    choiceIdx (some h) n wo co = Proofs.weightedTail h n cum := by
+  cases hp with
+  | weights ws hacc => rw [C16_weights_vs_cum h n ws cum hacc, Proofs.choiceIdx_cum]
+  | cumWeights => exact Proofs.choiceIdx_cum h n cum
+
+theorem passes_eq_random (n : Nat) (cum : List Num) (wo co : Option (List Num))
+    (hp : Passes cum wo co) : choiceIdx none n wo co = Proofs.randomTail n cum := by
+  cases hp with
+  | weights ws hacc => rw [C16_weights_vs_cum_random n ws cum hacc, Proofs.choiceIdx_none_cum]
+  | cumWeights => exact Proofs.choiceIdx_none_cum n cum
+
+/-- `itertools.accumulate` keeps the length, so "wrong length" means the same for both -/
+theorem C16_accumulate_length (ws cum : List Num) (hacc : accumulate ws = .ok cum) :
+    cum.length = ws.length :=
+  Proofs.accumulate_length ws cum hacc
+
+/-! ### (a) the result is a member of the population -/
+
+/-- weighted call (either kind of weights): a returned index is `< n`.  No hypothesis on the
+    weights at all — the search is confined to `[0, n-1]` whatever the comparisons say. -/
+theorem C16_member_weighted (h n i : Nat) (weights cumw : Option (List Num))
+    (hw : weights ≠ none ∨ cumw ≠ none)
+    (hres : choiceIdx (some h) n weights cumw = .ok (.idx i)) : i < n := by
+  cases weights with
+  | none =>
+    cases cumw with
+    | none => rcases hw with hw | hw <;> exact absurd rfl hw
+    | some cw =>
+      rw [Proofs.choiceIdx_cum] at hres
+      exact Proofs.weightedTail_idx_lt h n i cw hres
+  | some ws =>
+    cases cumw with
+    | some cw => rw [Proofs.choiceIdx_both] at hres; cases hres
+    | none =>
+      cases hacc : accumulate ws with
+      | error e => rw [C16_weights_accumulate_error (some h) n ws e hacc] at hres; cases hres
+      | ok cum =>
+        rw [C16_weights_vs_cum h n ws cum hacc, Proofs.choiceIdx_cum] at hres
+        exact Proofs.weightedTail_idx_lt h n i cum hres
+
+/-- the unweighted call returns exactly `⌊h·n / 2^32⌋` (32-bit position, `n < 2^21`) -/
+theorem C16_unweighted_value (h n : Nat) (hh : h < 2 ^ 32) (hn0 : 0 < n) (hn : n < 2 ^ 21) :
+    choiceIdx (some h) n none none = .ok (.idx (h * n / 2 ^ 32)) :=
+  Proofs.choiceIdx_unweighted h n hh hn0 hn
+
+/-- unweighted call: a returned index is `< n` -/
+theorem C16_member_unweighted (h n i : Nat) (hh : h < 2 ^ 32) (hn : n < 2 ^ 21)
+    (hres : choiceIdx (some h) n none none = .ok (.idx i)) : i < n := by
+  by_cases hn0 : 0 < n
+  · rw [Proofs.choiceIdx_unweighted h n hh hn0 hn] at hres
+    have hi : h * n / 2 ^ 32 = i := Pick.idx.inj (Except.ok.inj hres)
+    rw [← hi, Nat.div_lt_iff_lt_mul (Nat.two_pow_pos 32), Nat.mul_comm n]
+    exact Nat.mul_lt_mul_of_pos_right hh hn0
+  · have : n = 0 := by omega
+    subst this
+    rw [Proofs.choiceIdx_unweighted_zero h hh] at hres; cases hres
+
+/-- **Membership**: whatever the weights, an index returned for an id is a valid index into
+    the population.  (`0 < n` is not needed: with `n = 0` every branch raises.)  The bounds
+    `h < 2^32` (always true of `deterministic_proba`'s numerator) and `n < 2^21` are used by
+    the unweighted branch only. -/
+theorem C16_member (h n i : Nat) (weights cumw : Option (List Num))
+    (hh : h < 2 ^ 32) (hn : n < 2 ^ 21)
+    (hres : choiceIdx (some h) n weights cumw = .ok (.idx i)) : i < n := by
+  by_cases hw : weights ≠ none ∨ cumw ≠ none
+  · exact C16_member_weighted h n i weights cumw hw hres
+  · have h1 : weights = none := by
+      cases weights with
+      | none => rfl
+      | some ws => exact absurd (Or.inl (by simp)) hw
+    have h2 : cumw = none := by
+      cases cumw with
+      | none => rfl
+      | some ws => exact absurd (Or.inr (by simp)) hw
+    subst h1; subst h2
+    exact C16_member_unweighted h n i hh hn hres
+
+/-- with an id the call never delegates to `random.choices` -/
+theorem C16_id_never_random (h n : Nat) (weights cumw : Option (List Num)) (c : List Num)
+    (hh : h < 2 ^ 32) (hn : n < 2 ^ 21) :
+    choiceIdx (some h) n weights cumw ≠ .ok (.random c) := by
+  intro hres
+  cases weights with
+  | none =>
+    cases cumw with
+    | none =>
+      by_cases hn0 : 0 < n
+      · rw [Proofs.choiceIdx_unweighted h n hh hn0 hn] at hres; cases hres
+      · have : n = 0 := by omega
+        subst this
+        rw [Proofs.choiceIdx_unweighted_zero h hh] at hres; cases hres
+    | some cw =>
+      rw [Proofs.choiceIdx_cum] at hres
+      obtain ⟨_, _, _, _, _, _, _, hp⟩ := Proofs.weightedTail_ok h n cw _ hres
+      cases hp
+  | some ws =>
+    cases cumw with
+    | some cw => rw [Proofs.choiceIdx_both] at hres; cases hres
+    | none =>
+      cases hacc : accumulate ws with
+      | error e => rw [C16_weights_accumulate_error (some h) n ws e hacc] at hres; cases hres
+      | ok cum =>
+        rw [C16_weights_vs_cum h n ws cum hacc, Proofs.choiceIdx_cum] at hres
+        obtain ⟨_, _, _, _, _, _, _, hp⟩ := Proofs.weightedTail_ok h n cum _ hres
+        cases hp
+
+/-! ### (c) no weights ≡ equal integer weights -/
+
+/-- **No weights ≡ `n` equal weights `1.0`** -/
+theorem C16_unweighted_eq_equal_ints (h n : Nat) (hh : h < 2 ^ 32) (hn0 : 0 < n) (hn : n < 2 ^ 21) :
+    choiceIdx (some h) n none none
+      = choiceIdx (some h) n (some (List.replicate n (Num.f (Dbl.ofNat 1)))) none := by
+  have ht := Proofs.total_replicate_one n
+  obtain ⟨i, hi, hs⟩ := C03_int_exact (List.replicate n 1) h hh (by omega) (by omega)
+  have hw : floatWeights (List.replicate n 1) = List.replicate n (Num.f (Dbl.ofNat 1)) := by
+    simp [floatWeights]
+  rw [List.length_replicate, hw] at hi
+  rw [hi, Proofs.isSpecIdx_replicate_one n h i hs]
+  exact C16_unweighted_value h n hh hn0 hn
+
+/-- integer weights given as Python ints obey the interval rule exactly, like their float
+    counterparts in `C03_int_exact` -/
+theorem C16_intWeights_exact (w : List Nat) (h : Nat) (hh : h < 2 ^ 32)
+    (hpos : 0 < total w) (hT : total w < 2 ^ 21) :
+    ∃ i, choiceIdx (some h) w.length (some (intWeights w)) none = .ok (.idx i)
+      ∧ IsSpecIdx w h i := by
+  obtain ⟨cum, hacc, hlen, hrep⟩ := Proofs.accumulate_il_rep w hpos
+  obtain ⟨i, hi, hs, _, _⟩ := Proofs.weightedTail_spec w cum h hh hpos hT hlen hrep
+  refine ⟨i, ?_, hs⟩
+  rw [C16_weights_vs_cum h w.length (intWeights w) cum hacc, Proofs.choiceIdx_cum]
+  exact hi
+
+/-- running totals given directly (`cum_weights=[S_1, …, S_n]`, ints or integer floats) obey the
+    interval rule exactly -/
+theorem C16_cumWeights_exact (w : List Nat) (cum : List Num) (h : Nat) (hh : h < 2 ^ 32)
+    (hpos : 0 < total w) (hT : total w < 2 ^ 21) (hlen : cum.length = w.length)
+    (hrep : ∀ j, j < w.length →
+      cum[j]! = Num.f (Dbl.ofNat (prefixSum w (j + 1))) ∨ cum[j]! = Num.i (prefixSum w (j + 1) : Nat)) :
+    ∃ i, choiceIdx (some h) w.length none (some cum) = .ok (.idx i) ∧ IsSpecIdx w h i := by
+  have hrep' : ∀ j, j < w.length → Proofs.Rep cum[j]! (prefixSum w (j + 1)) := by
+    intro j hj
+    have hb : prefixSum w (j + 1) < 2 ^ 53 := by
+      have := Proofs.prefixSum_le_total w (j + 1); omega
+    rcases hrep j hj with hr | hr
+    · left; rw [hr, Proofs.ofNat_exact _ hb]; rfl
+    · right; exact hr
+  obtain ⟨i, hi, hs, _, _⟩ := Proofs.weightedTail_spec w cum h hh hpos hT hlen hrep'
+  exact ⟨i, by rw [Proofs.choiceIdx_cum]; exact hi, hs⟩
+
+/-- **No weights ≡ `n` equal int weights `1`** -/
+theorem C16_unweighted_eq_equal_ints_int (h n : Nat) (hh : h < 2 ^ 32) (hn0 : 0 < n)
+    (hn : n < 2 ^ 21) :
+    choiceIdx (some h) n none none
+      = choiceIdx (some h) n (some (List.replicate n (Num.i 1))) none := by
+  have ht := Proofs.total_replicate_one n
+  obtain ⟨i, hi, hs⟩ := C16_intWeights_exact (List.replicate n 1) h hh (by omega) (by omega)
+  have hw : intWeights (List.replicate n 1) = List.replicate n (Num.i 1) := by
+    simp [intWeights]
+  rw [List.length_replicate, hw] at hi
+  rw [hi, Proofs.isSpecIdx_replicate_one n h i hs]
+  exact C16_unweighted_value h n hh hn0 hn
+
+/-! ### (d) the error table, in the code's order — with an id -/
+
+/-- both `weights` and `cum_weights` ⇒ `TypeError` (with or without an id) -/
+theorem C16_errors_both (h : Option Nat) (n : Nat) (ws cw : List Num) :
+    choiceIdx h n (some ws) (some cw) = .error .typeError :=
+  Proofs.choiceIdx_both h n ws cw
+
+/-- explicit `cum_weights` of the wrong length ⇒ `ValueError` -/
+theorem C16_errors_len_cum (h n : Nat) (cw : List Num) (hlen : cw.length ≠ n) :
+    choiceIdx (some h) n none (some cw) = .error (.valueError "len") := by
+  rw [Proofs.choiceIdx_cum]; exact Proofs.weightedTail_len h n cw hlen
+
+/-- `weights` of the wrong length (that can be summed at all) ⇒ `ValueError` -/
+theorem C16_errors_len_weights (h n : Nat) (ws cum : List Num) (hacc : accumulate ws = .ok cum)
+    (hlen : ws.length ≠ n) :
+    choiceIdx (some h) n (some ws) none = .error (.valueError "len") := by
+  rw [C16_weights_vs_cum h n ws cum hacc]
+  exact C16_errors_len_cum h n cum (by rw [C16_accumulate_length ws cum hacc]; exact hlen)
+
+/-- empty population with empty weights: `cum_weights[-1]` ⇒ `IndexError` -/
+theorem C16_errors_empty (h : Nat) (wo co : Option (List Num)) (hp : Passes [] wo co) :
+    choiceIdx (some h) 0 wo co = .error .indexError := by
+  rw [passes_eq h 0 [] wo co hp]; rfl
+
+/-- empty population, no weights ⇒ `IndexError` -/
+theorem C16_errors_empty_unweighted (h : Nat) (hh : h < 2 ^ 32) :
+    choiceIdx (some h) 0 none none = .error .indexError :=
+  Proofs.choiceIdx_unweighted_zero h hh
+
+/-- the total `cum_weights[-1] + 0.0` cannot be formed (int beyond the float range)
+    ⇒ that `OverflowError` -/
+theorem C16_errors_total_overflow (h n : Nat) (cum : List Num) (wo co : Option (List Num))
+    (hp : Passes cum wo co) (last : Num) (e : Err)
+    (hlen : cum.length = n) (hlast : cum.getLast? = some last)
+    (htot : Num.add last (.f Dbl.zero) = .error e) :
+    choiceIdx (some h) n wo co = .error e := by
+  rw [passes_eq h n cum wo co hp]; exact Proofs.weightedTail_addErr h n cum last e hlen hlast htot
+
+/-- total `≤ 0` (this includes `-inf`) ⇒ `ValueError` -/
+theorem C16_errors_nonpositive (h n : Nat) (cum : List Num) (wo co : Option (List Num))
+    (hp : Passes cum wo co) (last : Num) (t : Dbl)
+    (hlen : cum.length = n) (hlast : cum.getLast? = some last)
+    (htot : Num.add last (.f Dbl.zero) = .ok (.f t)) (hle : Dbl.le t Dbl.zero = true) :
+    choiceIdx (some h) n wo co = .error (.valueError "nonpositive") := by
+  rw [passes_eq h n cum wo co hp]
+  exact Proofs.weightedTail_nonpositive h n cum last t hlen hlast htot hle
+
+/-- total not `≤ 0` and not finite (`inf` or `nan`) ⇒ `ValueError` -/
+theorem C16_errors_nonfinite (h n : Nat) (cum : List Num) (wo co : Option (List Num))
+    (hp : Passes cum wo co) (last : Num) (t : Dbl)
+    (hlen : cum.length = n) (hlast : cum.getLast? = some last)
+    (htot : Num.add last (.f Dbl.zero) = .ok (.f t)) (hle : Dbl.le t Dbl.zero = false)
+    (hfin : t.isFinite = false) :
+    choiceIdx (some h) n wo co = .error (.valueError "nonfinite") := by
+  rw [passes_eq h n cum wo co hp]
+  exact Proofs.weightedTail_nonfinite h n cum last t hlen hlast htot hle hfin
+
+/-- the total is always a float: the model's `"unreachable"` branch is unreachable -/
+theorem C16_total_is_float (last v : Num) (htot : Num.add last (.f Dbl.zero) = .ok v) :
+    ∃ t, v = .f t :=
+  Proofs.add_zero_isFloat last v htot
+
+/-- for float running totals the total is the last one plus `0.0` -/
+theorem C16_total_of_float (d : Dbl) :
+    Num.add (.f d) (.f Dbl.zero) = .ok (.f (Dbl.add d Dbl.zero)) := rfl
+
+/-- **Well-formed ⇒ no error**: right length, total defined, positive and finite ⇒ an index
+    (valid by `C16_member_weighted`), namely the bisect of `proba h · total`. -/
+theorem C16_no_error_when_wellformed (h n : Nat) (cum : List Num) (wo co : Option (List Num))
+    (hp : Passes cum wo co) (last : Num) (t : Dbl)
+    (hlen : cum.length = n) (hlast : cum.getLast? = some last)
+    (htot : Num.add last (.f Dbl.zero) = .ok (.f t)) (hle : Dbl.le t Dbl.zero = false)
+    (hfin : t.isFinite = true) :
+    choiceIdx (some h) n wo co = .ok (.idx (bisect cum (Dbl.mul (proba h) t) 0 (n - 1)))
+      ∧ bisect cum (Dbl.mul (proba h) t) 0 (n - 1) < n := by
+  have hres : choiceIdx (some h) n wo co
+      = .ok (.idx (bisect cum (Dbl.mul (proba h) t) 0 (n - 1))) := by
+    rw [passes_eq h n cum wo co hp]
+    exact Proofs.weightedTail_good h n cum last t hlen hlast htot hle hfin
+  refine ⟨hres, ?_⟩
+  rw [passes_eq h n cum wo co hp] at hres
+  exact Proofs.weightedTail_idx_lt h n _ cum hres
+
+/-- **…and conversely**: the call succeeds *only* in the well-formed case, so the error rows
+    above are exhaustive. -/
+theorem C16_ok_only_when_wellformed (h n : Nat) (cum : List Num) (wo co : Option (List Num))
+    (hp : Passes cum wo co) (p : Pick) (hok : choiceIdx (some h) n wo co = .ok p) :
+    ∃ last t, cum.length = n ∧ cum.getLast? = some last
+      ∧ Num.add last (.f Dbl.zero) = .ok (.f t) ∧ Dbl.le t Dbl.zero = false
+      ∧ t.isFinite = true ∧ p = .idx (bisect cum (Dbl.mul (proba h) t) 0 (n - 1)) := by
+  rw [passes_eq h n cum wo co hp] at hok
+  exact Proofs.weightedTail_ok h n cum p hok
+
+/-- well-formed integer weights (floats `k.0` or ints `k`), positive total `< 2^21`: no error -/
+theorem C16_no_error_int_weights (w : List Nat) (h : Nat) (hh : h < 2 ^ 32)
+    (hpos : 0 < total w) (hT : total w < 2 ^ 21) :
+    (∃ i, i < w.length ∧
+      choiceIdx (some h) w.length (some (floatWeights w)) none = .ok (.idx i))
+    ∧ (∃ i, i < w.length ∧
+      choiceIdx (some h) w.length (some (intWeights w)) none = .ok (.idx i)) := by
+  obtain ⟨i, hi, hs⟩ := C03_int_exact w h hh hpos hT
+  obtain ⟨j, hj, hs'⟩ := C16_intWeights_exact w h hh hpos hT
+  exact ⟨⟨i, hs.1, hi⟩, ⟨j, hs'.1, hj⟩⟩
+
+/-! ### (d') the same table without an id (`random.choices`) -/
+
+/-- no id, no weights: empty population ⇒ `IndexError`, else a uniform draw -/
+theorem C16_random_unweighted (n : Nat) :
+    choiceIdx none n none none = if n = 0 then .error .indexError else .ok (.random []) :=
+  Proofs.choiceIdx_none_unweighted n
+
+/-- without an id the argument checks raise exactly the errors of the call with an id -/
+theorem C16_random_errors_same (h n : Nat) (cum : List Num) (wo co : Option (List Num))
+    (hp : Passes cum wo co) (e : Err) :
+    choiceIdx none n wo co = .error e ↔ choiceIdx (some h) n wo co = .error e := by
+  rw [passes_eq h n cum wo co hp, passes_eq_random n cum wo co hp]
+  exact Proofs.randomTail_error_iff h n cum e
+
+/-- …and it delegates to `random.choices` with the running totals exactly when the call with
+    an id returns an index -/
+theorem C16_random_ok_same (h n : Nat) (cum : List Num) (wo co : Option (List Num))
+    (hp : Passes cum wo co) :
+    choiceIdx none n wo co = .ok (.random cum) ↔ ∃ i, choiceIdx (some h) n wo co = .ok (.idx i) := by
+  rw [passes_eq h n cum wo co hp, passes_eq_random n cum wo co hp]
+  exact Proofs.randomTail_ok_iff h n cum
+
+theorem C16_random_errors_len (n : Nat) (cum : List Num) (wo co : Option (List Num))
+    (hp : Passes cum wo co) (hlen : cum.length ≠ n) :
+    choiceIdx none n wo co = .error (.valueError "len") := by
+  rw [passes_eq_random n cum wo co hp]; exact Proofs.randomTail_len n cum hlen
+
+theorem C16_random_errors_nonpositive (n : Nat) (cum : List Num) (wo co : Option (List Num))
+    (hp : Passes cum wo co) (last : Num) (t : Dbl)
+    (hlen : cum.length = n) (hlast : cum.getLast? = some last)
+    (htot : Num.add last (.f Dbl.zero) = .ok (.f t)) (hle : Dbl.le t Dbl.zero = true) :
+    choiceIdx none n wo co = .error (.valueError "nonpositive") := by
+  rw [passes_eq_random n cum wo co hp]
+  exact Proofs.randomTail_nonpositive n cum last t hlen hlast htot hle
+
+theorem C16_random_errors_nonfinite (n : Nat) (cum : List Num) (wo co : Option (List Num))
+    (hp : Passes cum wo co) (last : Num) (t : Dbl)
+    (hlen : cum.length = n) (hlast : cum.getLast? = some last)
+    (htot : Num.add last (.f Dbl.zero) = .ok (.f t)) (hle : Dbl.le t Dbl.zero = false)
+    (hfin : t.isFinite = false) :
+    choiceIdx none n wo co = .error (.valueError "nonfinite") := by
+  rw [passes_eq_random n cum wo co hp]
+  exact Proofs.randomTail_nonfinite n cum last t hlen hlast htot hle hfin
+
+theorem C16_random_no_error_when_wellformed (n : Nat) (cum : List Num)
+    (wo co : Option (List Num)) (hp : Passes cum wo co) (last : Num) (t : Dbl)
+    (hlen : cum.length = n) (hlast : cum.getLast? = some last)
+    (htot : Num.add last (.f Dbl.zero) = .ok (.f t)) (hle : Dbl.le t Dbl.zero = false)
+    (hfin : t.isFinite = true) :
+    choiceIdx none n wo co = .ok (.random cum) := by
+  rw [passes_eq_random n cum wo co hp]
+  exact Proofs.randomTail_good n cum last t hlen hlast htot hle hfin
+
+/-! ### (e) the random draw never lands on a zero-weight item -/
+
+/-- **Random branch, integer weights on the 2^32 grid.**  For integer weights `w` (floats `k.0`
+    or ints `k`) with total `< 2^21` and a draw `r = k / 2^32`: the call without an id hands
+    `random.choices` the running totals `cum`, its search returns the group `i` of the interval
+    rule at position `k`, and that group's weight is not zero.
+
+    Scope: `random.random()` produces 53-bit draws `k / 2^53`; for those `r · total` is in
+    general rounded and the exact-arithmetic argument used here does not apply.  See
+    `C16_random_never_flat_step` for the rounding-independent part. -/
+theorem C16_random_never_zero_weight (w : List Nat) (k : Nat) (hk : k < 2 ^ 32)
+    (hpos : 0 < total w) (hT : total w < 2 ^ 21) (ws : List Num)
+    (hws : ws = floatWeights w ∨ ws = intWeights w) :
+    ∃ cum i, choiceIdx none w.length (some ws) none = .ok (.random cum)
+      ∧ randomIdx cum w.length (Dbl.ofNatDivPow2 k 32) = .ok i
+      ∧ IsSpecIdx w k i ∧ i < w.length ∧ w[i]? ≠ some 0 := by
+  have hex : ∃ cum, accumulate ws = .ok cum ∧ cum.length = w.length
+      ∧ ∀ j, j < w.length → Proofs.Rep cum[j]! (prefixSum w (j + 1)) := by
+    rcases hws with hws | hws
+    · subst hws; exact Proofs.accumulate_fl_rep w hpos hT
+    · subst hws; exact Proofs.accumulate_il_rep w hpos
+  obtain ⟨cum, hacc, hlen, hrep⟩ := hex
+  obtain ⟨i, _, hs, hr, hrt⟩ := Proofs.weightedTail_spec w cum k hk hpos hT hlen hrep
+  refine ⟨cum, i, ?_, hr, hs, hs.1, fun hz => C03_zero_never w k i hz hs⟩
+  rw [passes_eq_random w.length cum _ _ (Passes.weights ws hacc)]
+  exact hrt
+
+/-- with an id at the same grid position the same group is returned: the random branch and the
+    deterministic branch share one rule -/
+theorem C16_random_same_rule (w : List Nat) (k : Nat) (hk : k < 2 ^ 32)
+    (hpos : 0 < total w) (hT : total w < 2 ^ 21) :
+    ∃ cum i, choiceIdx none w.length (some (floatWeights w)) none = .ok (.random cum)
+      ∧ randomIdx cum w.length (proba k) = .ok i
+      ∧ choiceIdx (some k) w.length (some (floatWeights w)) none = .ok (.idx i) := by
+  obtain ⟨cum, hacc, hlen, hrep⟩ := Proofs.accumulate_fl_rep w hpos hT
+  have hacc' : accumulate (floatWeights w) = .ok cum := hacc
+  obtain ⟨i, hi, _, hr, hrt⟩ := Proofs.weightedTail_spec w cum k hk hpos hT hlen hrep
+  refine ⟨cum, i, ?_, hr, ?_⟩
+  · rw [passes_eq_random w.length cum _ _ (Passes.weights _ hacc')]; exact hrt
+  · rw [passes_eq k w.length cum _ _ (Passes.weights _ hacc')]; exact hi
+
+/-- **Rounding-independent part**: for *any* running totals that are non-decreasing under the
+    comparison the code uses and *any* search key `x`, the search never returns an interior
+    index `i` whose step is flat for `x` (`x < cum[i-1] ⇔ x < cum[i]`, in particular when
+    `cum[i] = cum[i-1]`, i.e. weight 0). -/
+theorem C16_random_never_flat_step (cum : List Num) (x : Dbl) (n i : Nat)
+    (hn : cum.length = n) (hi0 : 0 < i) (hi : i < n - 1)
+    (hmono : ∀ i j, i ≤ j → j < n → Num.dblLt x cum[i]! = true → Num.dblLt x cum[j]! = true)
+    (hflat : Num.dblLt x cum[i]! = Num.dblLt x cum[i - 1]!) :
+    bisect cum x 0 (n - 1) ≠ i := by
+  intro hb
+  obtain ⟨_, h2, h3⟩ := C03_bisect_partition cum x n hn (by omega) hmono
+  rw [hb] at h2 h3
+  have := h2 (i - 1) (by omega)
+  rw [h3 hi] at hflat
+  rw [← hflat] at this
+  cases this
+
+/-! ### concrete instances meeting the hypotheses (non-vacuity) -/
+
+section Examples
+
+/-- floats `1.0, 0.0, 3.0` and their running totals `1.0, 1.0, 4.0` -/
+private def cum103 : List Num := [.f (.fin 1 0), .f (.fin 1 0), .f (.fin 4 0)]
+
+-- (a) membership: 3 groups, index 2 returned
+example : choiceIdx (some 3000000000) 3 (some (floatWeights [1, 0, 3])) none = .ok (.idx 2) := rfl
+example : (2 : Nat) < 3 :=
+  C16_member 3000000000 3 2 (some (floatWeights [1, 0, 3])) none (by decide) (by decide) rfl
+example : (2 : Nat) < 3 := C16_member 3000000000 3 2 none none (by decide) (by decide) rfl
+-- (b) weights vs running totals
+example : accumulate (floatWeights [1, 0, 3]) = .ok cum103 := rfl
+example : choiceIdx (some 3000000000) 3 (some (floatWeights [1, 0, 3])) none
+    = choiceIdx (some 3000000000) 3 none (some cum103) :=
+  C16_weights_vs_cum _ _ _ _ rfl
+example : Passes cum103 (some (floatWeights [1, 0, 3])) none := .weights _ rfl
+-- (c) no weights vs equal weights: position 3·10^9 of 2^32 among 3 → ⌊2.09…⌋ = 2
+example : choiceIdx (some 3000000000) 3 none none = .ok (.idx 2) := rfl
+example : choiceIdx (some 3000000000) 3 (some (List.replicate 3 (Num.f (Dbl.ofNat 1)))) none
+    = .ok (.idx 2) := rfl
+example : choiceIdx (some 3000000000) 3 (some (List.replicate 3 (Num.i 1))) none
+    = .ok (.idx 2) := rfl
+example : (3000000000 : Nat) < 2 ^ 32 ∧ 0 < 3 ∧ 3 < 2 ^ 21 := by decide
+example : 0 < total [1, 0, 3] ∧ total [1, 0, 3] < 2 ^ 21 := by decide
+example : choiceIdx (some 3000000000) 3 (some (intWeights [1, 0, 3])) none = .ok (.idx 2) := rfl
+-- (d) the error rows
+example : choiceIdx (some 7) 3 (some (floatWeights [1, 0, 3])) (some cum103)
+    = .error .typeError := C16_errors_both _ _ _ _
+example : choiceIdx (some 7) 2 none (some cum103) = .error (.valueError "len") :=
+  C16_errors_len_cum 7 2 cum103 (by decide)
+example : choiceIdx (some 7) 2 (some (floatWeights [1, 0, 3])) none = .error (.valueError "len") :=
+  C16_errors_len_weights 7 2 _ cum103 rfl (by decide)
+example : choiceIdx (some 7) 0 (some []) none = .error .indexError :=
+  C16_errors_empty 7 _ _ (.weights [] rfl)
+example : choiceIdx (some 7) 0 none (some []) = .error .indexError :=
+  C16_errors_empty 7 _ _ .cumWeights
+example : choiceIdx (some 7) 0 none none = .error .indexError :=
+  C16_errors_empty_unweighted 7 (by decide)
+/-- all-zero weights -/
+example : choiceIdx (some 7) 2 (some (floatWeights [0, 0])) none
+    = .error (.valueError "nonpositive") :=
+  C16_errors_nonpositive 7 2 [.f (.fin 0 0), .f (.fin 0 0)] _ _ (.weights _ rfl)
+    (.f (.fin 0 0)) (.fin 0 0) rfl rfl rfl rfl
+/-- negative total, given as int running totals `[1, -1]` -/
+example : choiceIdx (some 7) 2 none (some [.i 1, .i (-1)]) = .error (.valueError "nonpositive") :=
+  C16_errors_nonpositive 7 2 _ _ _ .cumWeights (.i (-1)) (.fin (-1) 0) rfl rfl rfl rfl
+/-- `-inf` total is reported as non-positive (the `<= 0.0` test comes first) -/
+example : choiceIdx (some 7) 1 none (some [.f .ninf]) = .error (.valueError "nonpositive") :=
+  C16_errors_nonpositive 7 1 _ _ _ .cumWeights (.f .ninf) .ninf rfl rfl rfl rfl
+example : choiceIdx (some 7) 1 (some [.f .pinf]) none = .error (.valueError "nonfinite") :=
+  C16_errors_nonfinite 7 1 [.f .pinf] _ _ (.weights _ rfl) (.f .pinf) .pinf rfl rfl rfl rfl rfl
+example : choiceIdx (some 7) 1 none (some [.f .nan]) = .error (.valueError "nonfinite") :=
+  C16_errors_nonfinite 7 1 _ _ _ .cumWeights (.f .nan) .nan rfl rfl rfl rfl rfl
+-- an int total beyond the float range (2^1024): `OverflowError` from `cum_weights[-1] + 0.0`
+set_option maxRecDepth 8000 in
+example : choiceIdx (some 7) 1 none (some [.i (Int.ofNat (1 <<< 1024))])
+    = .error (.other "OverflowError") :=
+  C16_errors_total_overflow 7 1 _ _ _ .cumWeights (.i (Int.ofNat (1 <<< 1024)))
+    (.other "OverflowError") rfl rfl rfl
+/-- well-formed -/
+example : choiceIdx (some 3000000000) 3 none (some cum103)
+    = .ok (.idx (bisect cum103 (Dbl.mul (proba 3000000000) (.fin 4 0)) 0 (3 - 1))) :=
+  (C16_no_error_when_wellformed 3000000000 3 cum103 _ _ .cumWeights (.f (.fin 4 0)) (.fin 4 0)
+    rfl rfl rfl rfl rfl).1
+example : bisect cum103 (Dbl.mul (proba 3000000000) (.fin 4 0)) 0 (3 - 1) = 2 := rfl
+-- (d') without an id
+example : choiceIdx none 3 none none = .ok (.random []) := rfl
+example : choiceIdx none 0 none none = .error .indexError := rfl
+example : choiceIdx none 3 (some (floatWeights [1, 0, 3])) none = .ok (.random cum103) := rfl
+example : choiceIdx none 3 (some (floatWeights [1, 0, 3])) (some cum103) = .error .typeError := rfl
+example : choiceIdx none 2 none (some cum103) = .error (.valueError "len") :=
+  C16_random_errors_len 2 cum103 _ _ .cumWeights (by decide)
+example : choiceIdx none 2 (some (floatWeights [0, 0])) none = .error (.valueError "nonpositive") :=
+  C16_random_errors_nonpositive 2 [.f (.fin 0 0), .f (.fin 0 0)] _ _ (.weights _ rfl)
+    (.f (.fin 0 0)) (.fin 0 0) rfl rfl rfl rfl
+example : choiceIdx none 1 none (some [.f .pinf]) = .error (.valueError "nonfinite") :=
+  C16_random_errors_nonfinite 1 _ _ _ .cumWeights (.f .pinf) .pinf rfl rfl rfl rfl rfl
+example : choiceIdx none 3 none (some cum103) = .ok (.random cum103) :=
+  C16_random_no_error_when_wellformed 3 cum103 _ _ .cumWeights (.f (.fin 4 0)) (.fin 4 0)
+    rfl rfl rfl rfl rfl
+-- (e) the draw r = 2^30 / 2^32 = 0.25 sits exactly on the boundary S_1/T = S_2/T = 1/4:
+-- it skips the zero-weight group 1 and lands in group 2
+example : randomIdx cum103 3 (Dbl.ofNatDivPow2 (2 ^ 30) 32) = .ok 2 := rfl
+example : IsSpecIdx [1, 0, 3] (2 ^ 30) 2 := by decide
+example : randomIdx cum103 3 (Dbl.ofNatDivPow2 (2 ^ 30 - 1) 32) = .ok 0 := rfl
+/-- flat step: `cum103[1] = cum103[0]`, so index 1 is never returned, whatever the key -/
+example (x : Dbl) : Num.dblLt x cum103[1]! = Num.dblLt x cum103[1 - 1]! := rfl
+
+end Examples
 
 end Pyab.Properties
